@@ -1,0 +1,210 @@
+//go:build verif
+
+package isaacstates
+
+import (
+	"sort"
+	"sync"
+	"unsafe"
+
+	"github.com/spikeekips/mitum/base"
+)
+
+// Inspector and step hooks for the verification harness (build tag verif, add-only).
+// Nothing here is compiled without the tag.
+
+// VerifRecordInfo describes one voterecords object.
+type VerifRecordInfo struct {
+	Key      string // key under which the record is stored in vrs ("" when listed from removed)
+	Point    base.StagePoint
+	ID       uintptr // identity of the record object
+	NVoted   int
+	NBallots int
+	NVps     int
+	NExpels  int
+	ISC      bool
+	Finished bool
+	Hold     bool // countAfter is set
+}
+
+var (
+	verifPoolLock sync.Mutex
+	verifPoolPuts []uintptr
+	verifRecords  = map[uintptr]*voterecords{}
+	verifPoolOrig func(*voterecords)
+)
+
+func verifID(vr *voterecords) uintptr {
+	return uintptr(unsafe.Pointer(vr))
+}
+
+func verifRemember(vr *voterecords) uintptr {
+	id := verifID(vr)
+
+	verifPoolLock.Lock()
+	verifRecords[id] = vr
+	verifPoolLock.Unlock()
+
+	return id
+}
+
+func verifInfo(key string, vr *voterecords) VerifRecordInfo {
+	vr.RLock()
+	defer vr.RUnlock()
+
+	return VerifRecordInfo{
+		Key:      key,
+		Point:    vr.sp,
+		ID:       verifRemember(vr),
+		NVoted:   len(vr.voted),
+		NBallots: len(vr.ballots),
+		NVps:     len(vr.vps),
+		NExpels:  len(vr.expels),
+		ISC:      vr.isc,
+		Finished: vr.vp != nil,
+		Hold:     !vr.countAfter.IsZero(),
+	}
+}
+
+// VerifResetPool starts from an empty record pool and tracks every record put into it.
+func VerifResetPool() {
+	verifPoolLock.Lock()
+	defer verifPoolLock.Unlock()
+
+	voterecordsPool = sync.Pool{
+		New: func() interface{} {
+			return new(voterecords)
+		},
+	}
+	verifPoolPuts = nil
+	verifRecords = map[uintptr]*voterecords{}
+
+	if verifPoolOrig == nil {
+		verifPoolOrig = voterecordsPoolPut
+		voterecordsPoolPut = func(vr *voterecords) {
+			verifPoolOrig(vr)
+
+			verifPoolLock.Lock()
+			verifPoolPuts = append(verifPoolPuts, verifID(vr))
+			verifRecords[verifID(vr)] = vr
+			verifPoolLock.Unlock()
+		}
+	}
+}
+
+// VerifPoolPuts returns the identities of the records put into the pool, in order, since VerifResetPool.
+func VerifPoolPuts() []uintptr {
+	verifPoolLock.Lock()
+	defer verifPoolLock.Unlock()
+
+	p := make([]uintptr, len(verifPoolPuts))
+	copy(p, verifPoolPuts)
+
+	return p
+}
+
+// VerifRecord describes a record seen before by its identity (live, removed or pooled).
+func VerifRecord(id uintptr) (info VerifRecordInfo, found bool) {
+	verifPoolLock.Lock()
+	vr, found := verifRecords[id]
+	verifPoolLock.Unlock()
+
+	if !found {
+		return info, false
+	}
+
+	return verifInfo("", vr), true
+}
+
+// VerifInspect lists the live records (by key) and the records waiting in removed.
+func (box *Ballotbox) VerifInspect() (live, removed []VerifRecordInfo) {
+	box.vrs.Traverse(func(k string, vr *voterecords) bool {
+		live = append(live, verifInfo(k, vr))
+
+		return true
+	})
+
+	sort.Slice(live, func(i, j int) bool { return live[i].Key < live[j].Key })
+
+	_ = box.removed.Get(func(rs []*voterecords, _ bool) error {
+		for i := range rs {
+			removed = append(removed, verifInfo("", rs[i]))
+		}
+
+		return nil
+	})
+
+	return live, removed
+}
+
+// VerifVote is Vote() without the goroutines; the deferred count is returned to the caller.
+func (box *Ballotbox) VerifVote(bl base.Ballot) (bool, func() []base.Voteproof, error) {
+	if !box.checkBallot(bl) {
+		return false, nil, nil
+	}
+
+	var expels []base.SuffrageExpelOperation
+	if w, ok := bl.(base.HasExpels); ok {
+		expels = w.Expels()
+	}
+
+	return box.vote(bl.SignFact(), bl.Voteproof(), expels)
+}
+
+// VerifVoteSignFact is VoteSignFact() without the goroutine.
+func (box *Ballotbox) VerifVoteSignFact(sf base.BallotSignFact) (bool, func() []base.Voteproof, error) {
+	return box.vote(sf, nil, nil)
+}
+
+// VerifUnfinished is the snapshot taken by Count().
+func (box *Ballotbox) VerifUnfinished() []uintptr {
+	vrs := box.unfinishedVoterecords()
+	ids := make([]uintptr, len(vrs))
+
+	for i := range vrs {
+		ids[i] = verifRemember(vrs[i])
+	}
+
+	return ids
+}
+
+// VerifCountRecord is one iteration of the loop of Count() for a record seen before.
+func (box *Ballotbox) VerifCountRecord(id uintptr) []base.Voteproof {
+	verifPoolLock.Lock()
+	vr, found := verifRecords[id]
+	verifPoolLock.Unlock()
+
+	if !found {
+		return nil
+	}
+
+	return box.countVoterecords(vr)
+}
+
+// VerifCountHolded is one iteration of the loop of countHoldeds() for a record seen before.
+func (box *Ballotbox) VerifCountHolded(id uintptr) []base.Voteproof {
+	verifPoolLock.Lock()
+	vr, found := verifRecords[id]
+	verifPoolLock.Unlock()
+
+	if !found {
+		return nil
+	}
+
+	vps := vr.countHolded(box.local, box.LastPoint(), box.countAfter)
+	for i := range vps {
+		box.newVoteproof(vps[i])
+	}
+
+	return vps
+}
+
+// VerifCountHoldeds is countHoldeds().
+func (box *Ballotbox) VerifCountHoldeds() {
+	box.countHoldeds()
+}
+
+// VerifClean is clean().
+func (box *Ballotbox) VerifClean() {
+	box.clean()
+}
